@@ -4,7 +4,7 @@ import struct
 from core import term as T
 
 ID = "C11"
-GEN = []
+GEN = ["mutpins"]
 RULE = ("servermap cases: 1-5 versions (sequence numbers 0..6 with ties, k in 1..4) spread as 0..14 shares over <= 6 servers; "
         "non-trivial = at least two versions of which one is recoverable; distinct = distinct canonical share sets. "
         "_check_for_done cases: every flag combination x random maps.  Grid cases: publish histories of up to 6 versions with stale "
